@@ -469,8 +469,9 @@ func (w *World) crash(j crashJob) *Outcome {
 		trk.Apply(b)
 	}
 	o.Post = w.know.Project(trk)
-	if j.span != nil && pre.Stage != "none" {
-		// the restart had to resume the reset / jump: same database as the uninterrupted one
+	if j.span != nil && (pre.Stage != "none" || (o.Post.Stage == "none" && o.Post.Cur == int(j.span.Target) && pre.Cur == int(j.span.Target))) {
+		// the restart had to resume the reset / jump - or found it completed (tip at the target, no marker): either
+		// way the same database as the uninterrupted one
 		after := DumpStore(mem)
 		df := DiffDisks(after, j.span.Final, 6)
 		if len(df) == 0 {
